@@ -56,6 +56,26 @@ class TaggedSub(Tagged):
     pass
 
 
+class Row(tuple):
+    """looks like a namedtuple to the tuple printer, but its _fields cannot be iterated: the printer fails with a
+    TypeError of its own for THIS value (repr fallback) - which says nothing about other values of that printer"""
+    __slots__ = ()
+    _fields = property(lambda self: ('a', 'b'))
+
+    @classmethod
+    def _make(cls, it):
+        return cls(it)
+
+    def _replace(self, **kw):
+        return self
+
+    def _asdict(self):
+        return dict(zip(self._fields, self))
+
+    def __repr__(self):
+        return 'Row(%s)' % ', '.join(map(repr, self))
+
+
 class Weird:
     """repr is not an expression: a struct sequence holding one cannot have its field names
     recovered from its repr"""
@@ -69,7 +89,7 @@ class Shade(enum.Enum):
 
 
 Point = collections.namedtuple('Point', ['x', 'y'])
-for _c in (LazyA, LazyB, Eager, Shade, Point, Weird, ReBase, ReSub, Tagged, TaggedSub):
+for _c in (LazyA, LazyB, Eager, Shade, Point, Weird, ReBase, ReSub, Tagged, TaggedSub, Row):
     _c.__module__ = 'c19corpus'
 
 
@@ -177,6 +197,11 @@ def build():
         {'nested': [Shade.LIGHT, Point(LazyA(0), None)], 'words ' * 8: 'long string value ' * 6},
         Tagged(1), Tagged(50), TaggedSub(2), TaggedSub(99), [Tagged(11), Tagged(10)], {'t': TaggedSub([Tagged(500)])},
         Tagged('x'),
+        # a printer that fails with a TypeError while it is handed a trailing comment, next to ordinary values of
+        # the same printers that carry trailing comments
+        trailing_comment(Row((1, 2)), 'about the row'), [trailing_comment(Row(()), 'empty row'), 1],
+        trailing_comment([1, 2], 'and more'), trailing_comment({1, 2}, 'a set'), {'k': trailing_comment((1, 2), 'rest elided')},
+        trailing_comment({'a': 1}, 'a dict'),
     ]
     for v in std:
         vals.append(('std', v))
